@@ -138,6 +138,10 @@ def to_tla(schema, typelist):
             "TRUE" if s["custom_validate"] else "FALSE", "TRUE" if s["custom_groom"] else "FALSE",
             "TRUE" if s["elementlist"] else "FALSE", "TRUE" if s["bytag"] else "FALSE"))
     out.append("Schema == [" + ",\n  ".join(cl) + "]")
+    tags = sorted(set(schema) | {a["tag"] for s in schema.values() for a in s["attrs"]})
+    out.append("TagTable == [t \\in {%s} |-> CASE %s]" % (
+        ", ".join(tla_cps(t) for t in tags),
+        " [] ".join("t = %s -> %s" % (tla_cps(t), tla_str(t)) for t in tags)))
     names = sorted({a["a"] for s in schema.values() for a in s["attrs"]})
     for nm, suf in (("PctNames", "pct"), ("AmtNames", "amt"), ("RqNames", "rqv1"), ("RsNames", "rsv1")):
         out.append("%s == {%s}" % (nm, ", ".join(tla_str(x) for x in names if x.endswith(suf))))
